@@ -281,6 +281,7 @@ def run_batch(prog):
     global FAILSTOP, FAILKIND
     events = []
     shared = None          # programs with several calls use ONE ParameterList, edited between the calls with add/remove_parameter
+    selobj = None
     for op in prog:
         _, grid, reps, limit, two, procs, failstop = op[:7]
         failkind = op[7] if len(op) > 7 else "boom"
@@ -311,6 +312,8 @@ def run_batch(prog):
         else:
             params = {n: declared_value(n, v) for n, v in grid}
             if (reps + len(grid)) % 3 == 0:
+                decoy = ParameterList()                  # another list of the same program, created empty as well ...
+                decoy.add_parameter("zz", [1, 2])        # ... and filled with something else
                 built = ParameterList()                  # declared parameter by parameter
                 for n, v in grid:
                     built.add_parameter(n, declared_value(n, v))
@@ -330,8 +333,14 @@ def run_batch(prog):
             kw = {} if limit >= BIG else {"max_timesteps": limit}
             # collector selection: one name / a list holding that one name / a list of two names
             sel = {"one_list": "list1", "tuple2": "tuple2", "tuple1": "tuple1"}.get(two, "list2" if two else "str")
-            r = batch_run(BatchModel, params, collectors={"str": "c1", "list1": ["c1"], "list2": ["c1", "c2"], "tuple2": ("c1", "c2"),
-                                                          "tuple1": ("c1",)}[sel],
+            chosen = {"str": "c1", "list1": ["c1"], "list2": ["c1", "c2"], "tuple2": ("c1", "c2"), "tuple1": ("c1",)}[sel]
+            if len(prog) > 1 and sel in ("list1", "list2"):
+                # the batches of one program pass the SAME list object, edited in place in between
+                if selobj is None:
+                    selobj = []
+                selobj[:] = chosen
+                chosen = selobj
+            r = batch_run(BatchModel, params, collectors=chosen,
                           processes=procs, repetitions=reps, **kw)
             res = [_norm_run(x) for x in r]
             shapes = ["dict" if isinstance(x, dict) else ("list" if isinstance(x, list) else type(x).__name__) for x in r]
@@ -400,8 +409,8 @@ def reused_list_programs(rng, procs_choices, n):
         names = rng.sample(sorted(vals), rng.randint(1, 3))
         prog = []
         for _ in range(rng.randint(2, 4)):
-            prog.append(["batch_run", [[x, list(vals[x])] for x in names], rng.choice([1, 2]), rng.choice([2, 4, BIG]), False,
-                         rng.choice(procs_choices), -1])
+            prog.append(["batch_run", [[x, list(vals[x])] for x in names], rng.choice([1, 2]), rng.choice([2, 4, BIG]),
+                         rng.choice([False, "one_list", True]), rng.choice(procs_choices), -1])
             if rng.random() < 0.6 and len(names) > 1:
                 names = [x for x in names if x != rng.choice(names)]
             else:
@@ -503,6 +512,13 @@ def run_search(prog):
                 params = shared
             else:
                 params = {nm: list(v) for nm, v in grid}
+                if (reps + len(table)) % 3 == 1:
+                    decoy = ParameterList()              # two lists created empty in one program, filled differently
+                    decoy.add_parameter("zz", [1, 2])
+                    own = ParameterList()
+                    for nm, v in grid:
+                        own.add_parameter(nm, list(v))
+                    params = own
                 if (reps + len(table)) % 3 == 0:
                     # values given as one-shot iterables (a generator, map, iter): the grid is built from them once
                     wrap = [lambda v: (x for x in v), lambda v: map(lambda x: x, v), iter][(reps + procs) % 3]
